@@ -88,7 +88,7 @@ def gen_case(rng, tier):
             ops.append(("update_dict", s, [(rng.randrange(len(keys)), rng.randrange(1, 9)) for _ in range(rng.randrange(0, 4))]))
         elif x < 0.92:
             k = rng.randrange(len(keys))
-            ops.append(("ngram", s, k, rng.choice([1, 2, 3, 8, max(len(keys[k]), 1), len(keys[k]) + 1])))
+            ops.append(("ngram", s, k, rng.choice([1, 2, 3, 8, max(len(keys[k]), 1), len(keys[k]) + 1, 255, 256, 257, 300, 65536, 2**32, 2**32 + 1])))
         else:
             ops.append(("selfmerge", s))
     # finally merge everything into sketch 0 in a random tree order
